@@ -1,0 +1,35 @@
+// +build verif
+
+// Thin wrappers giving the external verification harness (/verif, property C19)
+// access to the downloader's trie-sync delivery and commit steps.  Compiled only
+// with -tags verif; nothing here changes behaviour.
+
+package downloader
+
+import (
+	"github.com/youchainhq/go-youchain/common"
+	"github.com/youchainhq/go-youchain/core/types"
+	"github.com/youchainhq/go-youchain/trie"
+	"github.com/youchainhq/go-youchain/youdb"
+)
+
+// VerifTrieSync wraps a trieSync that has no Downloader behind it.  Only
+// processNodeData and commit are reachable; kind must not be KindState (the
+// state kind updates Downloader statistics on commit).
+type VerifTrieSync struct{ s *trieSync }
+
+func VerifNewTrieSync(kind types.TrieKind, db youdb.Database, sched *trie.Sync) *VerifTrieSync {
+	if kind == types.KindState {
+		panic("VerifNewTrieSync: KindState needs a Downloader")
+	}
+	return &VerifTrieSync{newTrieSync(nil, kind, db, sched)}
+}
+
+// ProcessNodeData is trieSync.processNodeData: hash the blob, hand (hash, blob)
+// to the scheduler.
+func (v *VerifTrieSync) ProcessNodeData(blob []byte) (bool, common.Hash, error) {
+	return v.s.processNodeData(blob)
+}
+
+// Commit is trieSync.commit: flush the scheduler's membatch through one batch.
+func (v *VerifTrieSync) Commit(force bool) error { return v.s.commit(force) }
